@@ -75,7 +75,8 @@ def job(cfg):
     ns, ne, nsr = cfg["n_steps"], cfg["n_ene"], cfg["n_sr"]
     n, na, nb = (3, 1, 1) if wt == "restricted" else (3, 2, 1)
     onebody = cfg["limit"] == "onebody"
-    sysd = samplers.system(n, na, nb, 1, cfg["seed"], wt, scale=0.5)
+    # unrestricted runs carry a spin-dependent one-body Hamiltonian (h1_up != h1_dn), as the property admits
+    sysd = samplers.system(n, na, nb, 1, cfg["seed"], wt, scale=0.5, spin_dep=(wt == "unrestricted"))
     if cfg["limit"] == "symmetric":
         sysd = samplers.symmetric_system(4, 2.0)
         n, na, nb = 4, 1, 1
